@@ -146,6 +146,28 @@ impl ToTokens for TraitVisibility<'_> {
                             push_tokens!(stream, syn::token::Super::default());
                         });
                     }
+                    syn::Visibility::Restricted(restricted)
+                        if restricted.path.leading_colon.is_none()
+                            && restricted.path.segments.first().map_or(false, |segment| {
+                                segment.ident == "self" || segment.ident == "super"
+                            }) =>
+                    {
+                        // A restriction relative to the module outside (where the attribute was written)
+                        // has to be re-based, because the trait lives one module level further in.
+                        let mut path = (*restricted.path).clone();
+                        let span = path.span();
+                        let first = path.segments.first_mut().unwrap();
+                        if first.ident == "self" {
+                            first.ident = syn::Ident::new("super", first.ident.span());
+                        } else {
+                            path.segments
+                                .insert(0, syn::Ident::new("super", span).into());
+                        }
+                        push_tokens!(stream, restricted.pub_token);
+                        restricted.paren_token.surround(stream, |stream| {
+                            push_tokens!(stream, syn::token::In(span), path);
+                        });
+                    }
                     _ => {
                         push_tokens!(stream, self.visibility);
                     }
